@@ -257,12 +257,51 @@ def string_state_case(case):
     return dict(reproduced=bool(violated), violated=violated, observed=dict(regex=regex, bounds=kw))
 
 
+GETSET = {"set_trait_dict": ("trait", "__dict__"), "set_trait_handler": ("trait", "handler"), "set_trait_post_setattr": ("trait", "post_setattr"),
+          "set_trait_modify_delegate_flag": ("trait", "modify_delegate"), "set_trait_setattr_original_value_flag": ("trait", "setattr_original_value"),
+          "set_trait_post_setattr_original_value_flag": ("trait", "post_setattr_original_value"),
+          "set_trait_is_mapped_flag": ("trait", "is_mapped"), "_set_trait_comparison_mode": ("trait", "comparison_mode"),
+          "set_has_traits_dict": ("object", "__dict__")}
+
+
+def getset_delete_case(case):
+    """C18: `del x.attr` on an attribute implemented by a C setter (called with value == NULL) raises or succeeds, never
+    crashes.  Child process, because the failure mode is a crash."""
+    import subprocess
+    kind, attr = GETSET[case["setter"]]
+    prog = r"""
+from traits.api import HasTraits, Int
+from traits.ctraits import CHasTraits, cTrait
+class A(HasTraits):
+    x = Int
+a = A()
+t = A.class_traits()['x']
+kind, attr = %r, %r
+try:
+    if kind == 'trait':
+        cTrait.__dict__[attr].__delete__(t)
+    else:
+        CHasTraits.__dict__[attr].__delete__(a)
+    print('RESULT deleted')
+except BaseException as e:
+    print('RESULT raised', type(e).__name__)
+""" % (kind, attr)
+    p = subprocess.run([sys.executable, "-c", prog], capture_output=True, text=True, timeout=60)
+    violated = []
+    if p.returncode < 0:
+        violated.append("del <%s>.%s killed the interpreter with signal %d (C setter %s called with value == NULL)"
+                        % ("CTrait" if kind == "trait" else "HasTraits object", attr, -p.returncode, case["setter"]))
+    elif "RESULT" not in p.stdout:
+        violated.append("unexpected outcome: rc=%r stdout=%r stderr=%r" % (p.returncode, p.stdout[-200:], p.stderr[-300:]))
+    return dict(reproduced=bool(violated), violated=violated, observed=dict(returncode=p.returncode, stdout=p.stdout[-100:]))
+
+
 def main():
     case = json.loads(sys.stdin.read())
     out = {"float_range": float_range_case, "ctrait_state": ctrait_state_case,
            "setattr_name_refcount": setattr_name_refcount_case,
            "compound_order": compound_order_case, "compound_slow_first": compound_slow_first_case, "dynamic_range": dynamic_range_case,
-           "string_state": string_state_case}[case["family"]](case)
+           "string_state": string_state_case, "getset_delete": getset_delete_case}[case["family"]](case)
     print(json.dumps(out, default=repr))
 
 
